@@ -343,7 +343,7 @@ PROPS["C10"]["suites"].append(_CONFIG_SUITE)
 PROPS["C15"]["suites"].append(_CONFIG_SUITE)
 
 register_b09(
-    "C07", ["CocoVerif.Props.C07", "CocoVerif.Props.C07Expr", "CocoVerif.Props.C07Stmt"], OB.c07, OB.c07_classify, 
+    "C07", ["CocoVerif.Props.C07", "CocoVerif.Props.C07Expr", "CocoVerif.Props.C07Stmt", "CocoVerif.Props.C07Lib"], OB.c07, OB.c07_classify, 
     "every converted program of the transpiler suite (grammar-directed programs over all statement kinds, the bundled examples, "
     "unit-test inputs, mutated programs, all option sets): the user's procedure in the real output is parsed with an independent "
     "BASIC09 statement/expression grammar (harness/b09parse.py): labels, backslash-separated complete statements, balanced "
